@@ -298,7 +298,7 @@ def check_C01(run):
         if db.get("good") != "1":
             nv += 1
             if nv <= 25:
-                run.violation("theorem-premise", "invs_b (good_pos_b, the enemy-side conditions and at most 16 men a side: the position-level hypothesis of C02_every_generated_move_refines / "
+                run.violation("theorem-premise", "invr_b (good_pos_b, the enemy-side conditions, at most 16 men a side and the en-passant consistency ep_ok_b: the position-level hypothesis of C02_every_generated_move_refines / "
                               "C04_every_generated_move_keeps_the_key / C02_invariant_is_kept) is false on a position of D", {"fen": fen, "model": b[-200:]}, found_input=False)
         for c in cl:
             run.cov["classes"]["feature:" + c] = run.cov["classes"].get("feature:" + c, 0) + 1
@@ -328,8 +328,10 @@ def check_C01(run):
     run.cov["good_pos_b_true_on_positions"] = ngood
     run.cov["explanation"] = ("PARTIAL proof: closed lemmas are listed under 'theorems' (slider exactness C10, shift/ray characterisations); every generated move is "
                               "proved sane (GenSane: our man on the origin, target not ours, ...) on positions passing good_pos_b, evaluated (true) on every position here; "
-                              "the full refinement movegen_exact (generator = rules on all of D) is stated in coq/props/C01.v but not yet proved; "
-                              "until then 'equals the rules' rests on this differential against the executable specification "
+                              "the king-safety half of soundness is proved for every block (C01_no_generated_move_leaves_the_king_attacked, under the invariant inv_b and the "
+                              "en-passant consistency ep_ok_b, both evaluated true on every position of D here); "
+                              "the full refinement movegen_exact (generator = rules on all of D) is stated in coq/props/C01.v but not proved as a whole (open: pseudo-legality by "
+                              "the rules' own lists, completeness); until then 'equals the rules' rests on this differential against the executable specification "
                               "spec/Rules.v (extracted), which is a test, not a proof")
 
 
@@ -517,7 +519,7 @@ def check_C02(run):
             if db.get("good") != "1":
                 nv += 1
                 if nv <= 25:
-                    run.violation("theorem-premise", "invs_b (the hypothesis of C02_every_generated_move_refines and C02_invariant_is_kept) is false on a position of D",
+                    run.violation("theorem-premise", "invr_b (the hypothesis of C02_every_generated_move_refines and C02_invariant_is_kept_by_every_generated_move) is false on a position of D",
                                   {"fen": e["fen"], "model": b[-200:]}, found_input=False)
             if db.get("prem") != "1":
                 nv += 1
@@ -572,9 +574,9 @@ def check_C02(run):
     run.sample({"request": plays[0][:300], "implementation": impl[off][:300]})
     run.cov["refines_b_true_on_legal_moves"] = nprem
     run.cov["explanation"] = ("PARTIAL proof: makemove = Rules.apply proved for EVERY generated move of a position passing good_pos_b (no per-move premise; also per move under refines_b), "
-                              f"which was evaluated (true) on all {nprem} legal moves of this run; that every legal move of a position in D passes "
-                              "it, and in_D preservation, rest on running model, implementation and specification on every legal move of sampled "
-                              "positions and along play-outs")
+                              f"which was evaluated (true) on all {nprem} legal moves of this run; the invariant InvR (executable invr_b, evaluated true on every position of D here) is kept by "
+                              "every generated move with no legality premise (GenLegal.v), so the refinement holds along every sequence of generated moves; the tie of the model to the "
+                              "code rests on running model, implementation and specification on every legal move of sampled positions and along play-outs")
 
 
 KEYS_TURN = None
@@ -634,7 +636,7 @@ def check_C04(run):
             if db.get("good") != "1":
                 nv += 1
                 if nv <= 25:
-                    run.violation("theorem-premise", "invs_b (the hypothesis of C04_every_generated_move_keeps_the_key and C04_key_invariant_along_every_sequence) is false on a position of D",
+                    run.violation("theorem-premise", "invr_b (the hypothesis of C04_every_generated_move_keeps_the_key and C04_key_invariant_along_every_sequence) is false on a position of D",
                                   {"fen": e["fen"], "model": b[-200:]}, found_input=False)
             if db.get("kprem") != "1":
                 nv += 1
